@@ -82,7 +82,9 @@ def run(ctx, ck) -> None:
     # the very same helpers, called on the same object
     structural = {'in_structure', 'out_structure', 'in_size', 'out_size', 'as_matrix', 'in_promoted_dtype', 'out_promoted_dtype'}
     nshared = 0
-    for cls in table.operators():
+    from ..opkinds import concrete_mv_classes
+
+    for cls in concrete_mv_classes(table):
         am = table.resolve(cls, 'as_matrix')
         mv = table.resolve(cls, 'mv')
         if am is None or mv is None or not isinstance(am.node, ast.FunctionDef) or not isinstance(mv.node, ast.FunctionDef) or am.node is generic.node:
@@ -341,6 +343,10 @@ def _generic_builder(ck, fn: ast.FunctionDef) -> None:
         return
     benv = path_env(Path([('stmt', st) for st in body_fn.body if isinstance(st, (ast.Assign, ast.AugAssign))]), track_items=True)
     rt = term(rets[0].value, benv)
+    # `leaves[ileaf]` is the loop element `leaf` (the loop enumerates that very list)
+    from ..terms import subst as _subst
+
+    rt = _subst(rt, {('sub', ('var', leaves_name), ileaf): leaf, ('sub', leaves_t, ileaf): leaf})
     m0, j0 = ('item', carry, 0), ('item', carry, 1)
     unit = ('call', ('attr', ('call', ('attr', ('sub', ('attr', ('call', ('attr', leaf, 'ravel'), (), ()), 'at'), index), 'set'), (('const', '1'),), ()), 'reshape'), (('attr', leaf, 'shape'),), ())
     zeros = ('setitem', ('call', ('attr', ('var', leaves_name), 'copy'), (), ()), ileaf, unit)
